@@ -88,7 +88,7 @@ def run(ctx):
             "cfggun / gjson cases: components imported into the default registry, a minimal YAML section decoded by the real config decoder and plugin hooks into a gun factory / provider "
             "(http, http2 against an in-process TLS h2 target, connect, http/scenario, http2/scenario, grpc, grpc/scenario; grpc/json provider over long heterogeneous files with Release); "
             "expected auto-tag settings = the documented defaults overlaid by the section",
-            "engine cases: a whole pool section (gun http / connect, ammo: uri file with limit / passes, result: phout with ids and a queue size, rps shared / per instance, "
+            "engine cases: a whole pool section (gun http / connect with ammo: uri file, or gun grpc with ammo: grpc/json file; limit / passes, result: phout with ids and a queue size, rps shared / per instance, "
             "startup once / const / line / step / instance_step / composite) decoded by the real config decoder into engine.Config and run by the real engine against a target that answers "
             "after a delay and keeps the paths it received; lines of the results file vs requests received; code-shaped side = Model/ShootEngine.v (slow-target trace, out-of-ammo branch, check and contexts as translate awaitrun re-reads them"
             ")",
